@@ -1,10 +1,11 @@
 SPECIFICATION Spec
 CONSTANTS
-  Chars = {"0", "1", "2", "7", "8", "9", "a", "f", "A", "F", "x", "X", "b", "B", "'", "\\", "u", "U", "l", "L", "n", "t", "?", " "}
+  Chars <- CharsThorough
   MaxLen = 6
 INVARIANT HornerOK
 INVARIANT SepOK
 INVARIANT RangeOK
 INVARIANT SufOK
+INVARIANT PrefixOK
 CONSTRAINT DumpConstraint
 CHECK_DEADLOCK FALSE
